@@ -49,6 +49,7 @@ type MXFacts struct {
 	Slow     bool   `json:"slow"`
 	Cn       string `json:"cn"`    // "no" | "sec" | "half" | "insec": the MX name is a CNAME
 	TlsaC    string `json:"tlsaC"` // TLSA outcome under the canonical name
+	Quit     string `json:"quit"`  // how the MX answers QUIT: "" | bye | busy | silent | drop
 }
 
 type Cfg struct {
@@ -72,6 +73,9 @@ type Msg struct {
 	QLate bool `json:"qlate"`
 	// the body is handed over through PartialDelivery.BodyNonAtomic
 	NA bool `json:"na"`
+	// the message has an earlier recipient in another domain (other.invalid) whose MX is fully
+	// authenticated but does not offer the REQUIRETLS extension
+	Pre bool `json:"pre"`
 }
 
 type Behaviour struct {
@@ -81,6 +85,8 @@ type Behaviour struct {
 }
 
 const domain = "example.invalid"
+const otherDomain = "other.invalid"
+const otherMX = "mxo.other.invalid"
 
 func mxHost(i int) string { return "mx" + strconv.Itoa(i) + "." + domain }
 
@@ -167,6 +173,9 @@ func buildWorld(t *testing.T, c Cfg, tr *vtrace.Tracer) *world {
 				f["mx"] = i
 				tr.Emit(e, vtrace.Ev(f))
 			},
+		}
+		if f.Quit != "" && f.Quit != "bye" {
+			sc.QuitMode = f.Quit
 		}
 		switch f.Stls {
 		case "offered":
@@ -260,6 +269,32 @@ func buildWorld(t *testing.T, c Cfg, tr *vtrace.Tracer) *world {
 	}
 	zones[domain+"."] = domZone
 
+	// the other recipient domain of "pre" messages: authenticated in every respect (AD, MTA-STS match,
+	// valid certificate, no TLSA), but its MX does not offer REQUIRETLS. Its server events carry mx = 0
+	// and are not part of the trace handed to the specification.
+	{
+		oleaf, err := cs.Leaf(otherMX, "valid")
+		if err != nil {
+			t.Fatal(err)
+		}
+		osrv, err := scripted.NewSMTPServer(scripted.SMTPServerConfig{
+			Name: "mxo", Hostname: otherMX, NoREQUIRETLS: true, CertClass: "valid",
+			TLS: &tls.Config{Certificates: []tls.Certificate{*oleaf}},
+			Emit: func(e string, f map[string]interface{}) {
+				f["mx"] = 0
+				tr.Emit(e, vtrace.Ev(f))
+			},
+		})
+		if err != nil {
+			t.Fatal(err)
+		}
+		w.servers = append(w.servers, osrv)
+		w.net.Add(otherMX, osrv)
+		zones[otherDomain+"."] = scripted.DNSZone{AD: true, MX: []net.MX{{Host: otherMX + ".", Pref: 10}}}
+		zones[otherMX+"."] = scripted.DNSZone{AD: true, A: []string{"127.0.0.1"}}
+		zones["_25._tcp."+otherMX+"."] = scripted.DNSZone{AD: true}
+	}
+
 	dnsSrv, err := scripted.NewDNSServer(zones)
 	if err != nil {
 		t.Fatal(err)
@@ -286,6 +321,9 @@ func buildWorld(t *testing.T, c Cfg, tr *vtrace.Tracer) *world {
 		case name == "mtasts" && has(c.Pols, "mtasts"):
 			sts := c.Sts
 			pols = append(pols, remote.VerifRemoteMTASTSPolicy(func(_ context.Context, d string) (*mtasts.Policy, error) {
+				if d == otherDomain {
+					return &mtasts.Policy{Mode: mtasts.ModeTesting, MX: []string{otherMX}, MaxAge: 3600}, nil
+				}
 				if d != domain {
 					return nil, errors.New("wrong domain in MTA-STS lookup")
 				}
@@ -335,11 +373,18 @@ func cfgEvent(c Cfg) vtrace.Ev {
 	mx := []interface{}{}
 	for _, f := range c.MX {
 		mx = append(mx, map[string]interface{}{"stls": f.Stls, "cert": f.Cert, "stsMatch": f.StsMatch, "tlsa": f.Tlsa, "slow": f.Slow,
-			"cn": cnOf(f), "tlsaC": tlsaCOf(f)})
+			"cn": cnOf(f), "tlsaC": tlsaCOf(f), "quit": quitOf(f)})
 	}
 	pols := append([]string{}, c.Pols...)
 	return vtrace.Ev{"pols": pols, "minTLS": c.MinTLS, "minMX": c.MinMX, "override": c.Override,
 		"sts": c.Sts, "adMX": c.AdMX, "dns": c.DNS, "mx": mx}
+}
+
+func quitOf(f MXFacts) string {
+	if f.Quit == "" {
+		return "bye"
+	}
+	return f.Quit
 }
 
 func cnOf(f MXFacts) string {
@@ -383,10 +428,14 @@ func runBehaviour(t *testing.T, b Behaviour, out *bufio.Writer) {
 		}
 		w.gate.reset()
 		tr.Emit("Msg", vtrace.Ev{"m": i + 1, "reqtls": m.ReqTLS, "tlsno": m.TLSNo, "quar": m.Quar,
-			"mailfail": m.MailFail, "qlate": m.QLate, "na": m.NA})
+			"mailfail": m.MailFail, "qlate": m.QLate, "na": m.NA, "pre": m.Pre})
 		d, err := w.tgt.Start(ctx, meta, from)
 		if err != nil {
 			t.Fatalf("behaviour %d: Start failed: %v", b.ID, err)
+		}
+		if m.Pre {
+			perr := d.AddRcpt(ctx, "rcpt@"+otherDomain, smtp.RcptOptions{})
+			tr.Emit("Pre", vtrace.Ev{"res": class(perr), "err": errText(perr)})
 		}
 		err = d.AddRcpt(ctx, "rcpt@"+domain, smtp.RcptOptions{})
 		if serr := w.net.Settle(); serr != nil {
